@@ -233,11 +233,18 @@ def r5_local_identity(ctx):
             ctx.check(g == C05.WANT_LOCAL.get(arm), "resend_locally/%s/local-recipient-rule" % arm, site_of(body, bb), "guards %s" % sorted((r, sorted(k)) for r, k in g))
 
 
+def r6_recipient_tables(ctx):
+    """The local server is a recipient through exactly one path: in every SendMode arm of the remote senders the local server
+    (SERVER) is excluded, in the local re-emitter it is the only one served (same rule as C05.R1)."""
+    C05.r1_recipients(ctx)
+
+
 RULES = [
     ("C13.R1", "run-condition table of the event systems", r1_run_conditions, 9, ["default", "all-features"]),
     ("C13.R2", "remote send and local re-emission of client events are mutually exclusive", r2_mutual_exclusion, 5, None),
     ("C13.R3", "nothing is queued for the wire outside a session (same rule as C09.R3)", r3_no_wire_without_session, 8, None),
     ("C13.R4", "hand-over between the non-draining and the draining consumer on status edges", r4_hand_over, 5, ["default", "all-features"]),
     ("C13.R5", "local re-emission: SERVER identity and local recipient rules (C05.R1/R3)", r5_local_identity, 5, ["default", "all-features", "server-only"]),
+    ("C13.R6", "SERVER is excluded from every remote send arm and served only by the local re-emitter (same rule as C05.R1)", r6_recipient_tables, 18, ["default", "all-features", "server-only"]),
 ]
 THOROUGH_CONFIGS = ["default", "all-features", "server-only", "client-only"]
